@@ -125,6 +125,7 @@ type reader struct {
 type RollbackTrunc struct {
 	SzBefore           int64
 	MetaEnd, DataEnd   uint64
+	OtherEnd           uint64 // end of the state of the other header page (0: that page is not valid)
 	MaxPages, PageSize uint
 	NewSize            int64
 	Failed             bool // the size query or the truncate call itself failed (fault injection)
@@ -831,7 +832,14 @@ func (e *Engine) apply(op Op) Result {
 				// is the one the rollback asked for)
 				szBefore = e.Disk.LastSizeResult()
 			}
-			rt := RollbackTrunc{SzBefore: szBefore, MetaEnd: sn.MetaEnd, DataEnd: sn.DataEnd, MaxPages: sn.MaxPages, PageSize: sn.PageSize, NewSize: -1}
+			var otherEnd uint64
+			if h := sn.Hdr[1-sn.MetaActive]; h.Valid {
+				otherEnd = h.DataEndMarker
+				if h.MetaEndMarker > otherEnd {
+					otherEnd = h.MetaEndMarker
+				}
+			}
+			rt := RollbackTrunc{OtherEnd: otherEnd, SzBefore: szBefore, MetaEnd: sn.MetaEnd, DataEnd: sn.DataEnd, MaxPages: sn.MaxPages, PageSize: sn.PageSize, NewSize: -1}
 			for _, d := range e.Disk.LogCopy()[logAt:] {
 				if d.Kind == simdisk.OpTruncate {
 					rt.NewSize, rt.Failed = d.Size, d.Failed
